@@ -12,34 +12,45 @@
 (* agreement with Expected() in the remaining cases (e.g. a directory in    *)
 (* the first location) is counted as drift only.                            *)
 (***************************************************************************)
-EXTENDS BundleProps, TraceKit
+EXTENDS BundleProps, AgentDialProps, TraceKit
 
 CONSTANT Want
-VARIABLES l, fails, drift, frommc, done
-tvars == <<l, fails, drift, frommc, done>>
+VARIABLES l, fails, drift, frommc, dials, dialdrift, done
+tvars == <<l, fails, drift, frommc, dials, dialdrift, done>>
 
 WellFormed(r) == /\ Has(r, "ev") /\ r.ev = "Bundle" /\ Has(r, "in") /\ Has(r, "out")
                  /\ r.in.exe.k \in {"absent", "dir", "bundle"} /\ r.in.lib.k \in {"absent", "dir", "bundle"}
                  /\ r.in.inbin \in BOOLEAN /\ r.out.ok \in BOOLEAN /\ r.out.exists \in BOOLEAN
 
+\* growth: a real agent.Dial against a scripted transport (see AgentDialProps); only the two facts that
+\* are C46's are verdicts, agreement of the command sequence with the dial machine is conformance
+IsDial(r) == Has(r, "ev") /\ r.ev = "Dial" /\ Has(r, "in") /\ Has(r, "out")
+DialFails(i, r) ==
+     Chk(Want, i, "C46_ExactBytes", DialCopiesEntry(r.out.steps, r.out.copied, r.in.bundle))
+  \o Chk(Want, i, "C46_UnknownRejected", DialRejectsUnknown(r.out.steps))
+DialDrift(r) == ~(r.out.returned /\ ~r.out.offscript /\ Conforms(r.out.steps, r.out.ok) /\ r.out.steps = r.in.steps)
+
 RecFails(i, r) ==
-  IF ~WellFormed(r) THEN <<Fail(i, "TraceAccepted")>>
+  IF IsDial(r) THEN DialFails(i, r)
+  ELSE IF ~WellFormed(r) THEN <<Fail(i, "TraceAccepted")>>
   ELSE Chk(Want, i, "C46_SearchOrder", C46_SearchOrder(r.in, r.out))
     \o Chk(Want, i, "C46_ExactBytes", C46_ExactBytes(r.in, r.out))
     \o Chk(Want, i, "C46_UnknownRejected", C46_UnknownRejected(r.in, r.out))
 
 Drift(r) == IF WellFormed(r) /\ (r.out.ok # Expected(r.in).ok \/ (r.out.ok /\ r.out.b # Expected(r.in).b)) THEN 1 ELSE 0
 
-TInit == l = 1 /\ fails = <<>> /\ drift = 0 /\ frommc = 0 /\ done = FALSE
+TInit == l = 1 /\ fails = <<>> /\ drift = 0 /\ frommc = 0 /\ dials = 0 /\ dialdrift = 0 /\ done = FALSE
 Step == /\ l <= NRec
         /\ LET r == Trace[l] IN
            /\ fails' = Cap(fails \o RecFails(l, r))
-           /\ drift' = drift + Drift(r)
+           /\ drift' = drift + (IF IsDial(r) THEN 0 ELSE Drift(r))
+           /\ dials' = dials + (IF IsDial(r) THEN 1 ELSE 0)
+           /\ dialdrift' = dialdrift + (IF IsDial(r) /\ DialDrift(r) THEN 1 ELSE 0)
            /\ frommc' = frommc + (IF Has(r, "src") /\ r.src = "mc" THEN 1 ELSE 0)
         /\ l' = l + 1 /\ UNCHANGED done
 Finish == /\ l = NRec + 1 /\ ~done
-          /\ WriteResult(l - 1, fails, [stat_drift |-> drift, stat_from_model |-> frommc])
-          /\ done' = TRUE /\ UNCHANGED <<l, fails, drift, frommc>>
+          /\ WriteResult(l - 1, fails, [stat_drift |-> drift, stat_from_model |-> frommc, stat_dials |-> dials, stat_dial_drift |-> dialdrift])
+          /\ done' = TRUE /\ UNCHANGED <<l, fails, drift, frommc, dials, dialdrift>>
 TNext == Step \/ Finish
 TSpec == TInit /\ [][TNext]_tvars
 ====
